@@ -426,7 +426,7 @@ def dead_connection_case(seed):
 
     rng = random.Random(seed)
     kind = rng.choice(["connect-200", "terminate-pipelined", "h2c-404", "h2c-connect", "pipelined-reset", "h2-idle-reset", "longpoll-reset",
-                       "longpoll-read-timeout"])
+                       "longpoll-read-timeout", "h2-last-stream-after-terminate"])
     d = rng.choice([0.0, 2.0])
     answer = [("recv",), ("sleep", d), ("send", {"type": "http.response.start", "status": 200, "headers": []}),
               ("send", {"type": "http.response.body", "body": b"hello", "more_body": False})]
@@ -443,6 +443,20 @@ def dead_connection_case(seed):
         c.send_headers(1, [(b":method", b"GET"), (b":path", b"/a"), (b":scheme", b"https"), (b":authority", b"x")], end_stream=True)
         alpn = "h2"
         script = [("send", c.data_to_send()), ("sleep", d + 1.0), ("reset",), ("sleep", 3.0)]
+    elif kind == "h2-last-stream-after-terminate":
+        # shutdown begins while the only stream of an HTTP/2 connection is being answered: when it ends the connection has
+        # no open streams and is closed at once (GOAWAY, then the transport)
+        import h2.config
+        import h2.connection
+
+        c = h2.connection.H2Connection(h2.config.H2Configuration(client_side=True, header_encoding=None))
+        c.initiate_connection()
+        c.send_headers(1, [(b":method", b"GET"), (b":path", b"/a"), (b":scheme", b"https"), (b":authority", b"x")], end_stream=True)
+        alpn = "h2"
+        d = 2.0
+        answer = [("recv",), ("sleep", d), ("send", {"type": "http.response.start", "status": 200, "headers": []}),
+                  ("send", {"type": "http.response.body", "body": b"hello", "more_body": False})]
+        script = [("send", c.data_to_send()), ("sleep", 0.5), ("terminate",), ("sleep", 10.0)]
     elif kind in ("longpoll-reset", "longpoll-read-timeout"):
         # the application waits in receive() for its disconnect; the connection ends by a reset / the read timeout
         answer = [("recv",), ("recv",), ("return",)]
@@ -480,6 +494,8 @@ def dead_connection_case(seed):
                           "error": res["handler_error"]})
         elif res["handler_error"]:
             fails.append({"signature": "handler-error:" + kind, "backend": backend, "error": res["handler_error"], "desc": desc})
+        elif kind == "h2-last-stream-after-terminate" and (closed_at(res) is None or closed_at(res) > 2.0 + 0.5):
+            fails.append({"signature": "not-closed-at-once-after-last-stream:" + kind, "backend": backend, "closed_at": closed_at(res), "desc": desc})
         elif kind.startswith("h2c") and not any(k == "data" and d2 and b"\x00\x00\x00\x00\x01\x00\x00\x00\x01" in d2 for _, k, d2 in res["events"]):
             # the stream's own answer ends with an empty DATA frame carrying END_STREAM on stream 1
             fails.append({"signature": "h2c-upgrade-request-not-answered:" + kind, "backend": backend, "desc": desc})
